@@ -147,6 +147,9 @@ macro_rules! scell {
     (@chkv absent, $m:expr) => { assert!(silent(0) && silent(1), "C09.absent_layer_is_not_called"); };
     (@chkv vec2, $m:expr) => { assert!(only(0, $m) && (silent(1) || only(1, $m)), "C09.first_element_once_second_at_most_once"); };
     (@arg one, $a:expr) => { assert!(ARG_A[0].load(AO::SeqCst) == $a, "C09.same_argument"); };
+    (@arg2 one, $b:expr) => { assert!(ARG_B[0].load(AO::SeqCst) == $b, "C09.same_second_argument"); };
+    (@arg2 absent, $b:expr) => {};
+    (@arg2 vec2, $b:expr) => { assert!(ARG_B[0].load(AO::SeqCst) == $b && ARG_B[1].load(AO::SeqCst) == $b, "C09.same_second_argument"); };
     (@arg absent, $a:expr) => {};
     (@arg vec2, $a:expr) => { assert!(ARG_A[0].load(AO::SeqCst) == $a && ARG_A[1].load(AO::SeqCst) == $a, "C09.same_argument"); };
 
@@ -155,12 +158,12 @@ macro_rules! scell {
     (register_callsite, $w:expr, $c:expr, $exp:ident) => {{ let got = Subscribe::<Root>::register_callsite(&$w, &META); scell!(@chk $exp, S_REGISTER_CALLSITE); scell!(@arg $exp, addr(&META)); scell!(@res_interest $exp, got, $c); }};
     (enabled, $w:expr, $c:expr, $exp:ident) => {{ let got = $w.enabled(&META, ctx()); scell!(@chkv $exp, S_ENABLED); scell!(@res_bool $exp, got, $c.enabled); }};
     (on_new_span, $w:expr, $c:expr, $exp:ident) => {{ let vs = META.fields().value_set(&[]); let a = span::Attributes::new(&META, &vs); let id = span::Id::from_u64(7);
-        $w.on_new_span(&a, &id, ctx()); scell!(@chk $exp, S_ON_NEW_SPAN); scell!(@arg $exp, addr(&a)); }};
+        $w.on_new_span(&a, &id, ctx()); scell!(@chk $exp, S_ON_NEW_SPAN); scell!(@arg $exp, addr(&a)); scell!(@arg2 $exp, 7usize); }};
     (max_level_hint, $w:expr, $c:expr, $exp:ident) => {{ let got = Subscribe::<Root>::max_level_hint(&$w); scell!(@chkv $exp, S_MAX_LEVEL_HINT); scell!(@res_hint $exp, got, $c); }};
     (on_record, $w:expr, $c:expr, $exp:ident) => {{ let vs = META.fields().value_set(&[]); let r = span::Record::new(&vs); let id = span::Id::from_u64(7);
-        $w.on_record(&id, &r, ctx()); scell!(@chk $exp, S_ON_RECORD); scell!(@arg $exp, addr(&id)); }};
+        $w.on_record(&id, &r, ctx()); scell!(@chk $exp, S_ON_RECORD); scell!(@arg $exp, addr(&id)); scell!(@arg2 $exp, addr(&r)); }};
     (on_follows_from, $w:expr, $c:expr, $exp:ident) => {{ let id = span::Id::from_u64(7); let f = span::Id::from_u64(8);
-        $w.on_follows_from(&id, &f, ctx()); scell!(@chk $exp, S_ON_FOLLOWS_FROM); scell!(@arg $exp, addr(&id)); }};
+        $w.on_follows_from(&id, &f, ctx()); scell!(@chk $exp, S_ON_FOLLOWS_FROM); scell!(@arg $exp, addr(&id)); scell!(@arg2 $exp, addr(&f)); }};
     (event_enabled, $w:expr, $c:expr, $exp:ident) => {{ let vs = META.fields().value_set(&[]); let e = Event::new(&META, &vs);
         let got = $w.event_enabled(&e, ctx()); scell!(@chkv $exp, S_EVENT_ENABLED); scell!(@res_bool $exp, got, $c.ev_enabled); }};
     (on_event, $w:expr, $c:expr, $exp:ident) => {{ let vs = META.fields().value_set(&[]); let e = Event::new(&META, &vs);
@@ -168,7 +171,7 @@ macro_rules! scell {
     (on_enter, $w:expr, $c:expr, $exp:ident) => {{ let id = span::Id::from_u64(7); $w.on_enter(&id, ctx()); scell!(@chk $exp, S_ON_ENTER); scell!(@arg $exp, addr(&id)); }};
     (on_exit, $w:expr, $c:expr, $exp:ident) => {{ let id = span::Id::from_u64(7); $w.on_exit(&id, ctx()); scell!(@chk $exp, S_ON_EXIT); scell!(@arg $exp, addr(&id)); }};
     (on_close, $w:expr, $c:expr, $exp:ident) => {{ let k: u64 = nd(); kani::assume(k != 0); $w.on_close(span::Id::from_u64(k), ctx()); scell!(@chk $exp, S_ON_CLOSE); scell!(@arg $exp, k as usize); }};
-    (on_id_change, $w:expr, $c:expr, $exp:ident) => {{ let o = span::Id::from_u64(7); let n = span::Id::from_u64(8); $w.on_id_change(&o, &n, ctx()); scell!(@chk $exp, S_ON_ID_CHANGE); scell!(@arg $exp, 7usize); }};
+    (on_id_change, $w:expr, $c:expr, $exp:ident) => {{ let o = span::Id::from_u64(7); let n = span::Id::from_u64(8); $w.on_id_change(&o, &n, ctx()); scell!(@chk $exp, S_ON_ID_CHANGE); scell!(@arg $exp, 7usize); scell!(@arg2 $exp, 8usize); }};
     (downcast_raw, $w:expr, $c:expr, $exp:ident) => {{ let got = unsafe { Subscribe::<Root>::downcast_raw(&$w, TypeId::of::<RecS>()) }; scell!(@res_downcast $exp, got); }};
 
     (@res_interest one, $got:expr, $c:expr) => { assert!(icode(&$got) == $c.interest, "C09.result_unchanged"); };
@@ -189,18 +192,20 @@ macro_rules! scell {
 macro_rules! fcell {
     (@chk one, $m:expr) => { assert!(only(0, $m), "C09.forwarded_exactly_once_and_nothing_else_called"); };
     (@chk absent, $m:expr) => { assert!(silent(0), "C09.absent_filter_is_not_called"); };
-    (enabled, $w:expr, $c:expr, $exp:ident) => {{ let cx = ctx(); let got = Filter::<Root>::enabled(&$w, &META, &cx); fcell!(@chk $exp, F_ENABLED); fcell!(@res_bool $exp, got, $c.enabled); }};
-    (callsite_enabled, $w:expr, $c:expr, $exp:ident) => {{ let got = Filter::<Root>::callsite_enabled(&$w, &META); fcell!(@chk $exp, F_CALLSITE_ENABLED); fcell!(@res_interest $exp, got, $c); }};
+    (@farg one, $a:expr, $b:expr) => { assert!(ARG_A[0].load(AO::SeqCst) == $a && ARG_B[0].load(AO::SeqCst) == $b, "C09.same_arguments"); };
+    (@farg absent, $a:expr, $b:expr) => {};
+    (enabled, $w:expr, $c:expr, $exp:ident) => {{ let cx = ctx(); let got = Filter::<Root>::enabled(&$w, &META, &cx); fcell!(@chk $exp, F_ENABLED); fcell!(@farg $exp, addr(&META), 0usize); fcell!(@res_bool $exp, got, $c.enabled); }};
+    (callsite_enabled, $w:expr, $c:expr, $exp:ident) => {{ let got = Filter::<Root>::callsite_enabled(&$w, &META); fcell!(@chk $exp, F_CALLSITE_ENABLED); fcell!(@farg $exp, addr(&META), 0usize); fcell!(@res_interest $exp, got, $c); }};
     (max_level_hint, $w:expr, $c:expr, $exp:ident) => {{ let got = Filter::<Root>::max_level_hint(&$w); fcell!(@chk $exp, F_MAX_LEVEL_HINT); fcell!(@res_hint $exp, got, $c); }};
     (event_enabled, $w:expr, $c:expr, $exp:ident) => {{ let vs = META.fields().value_set(&[]); let e = Event::new(&META, &vs); let cx = ctx();
-        let got = Filter::<Root>::event_enabled(&$w, &e, &cx); fcell!(@chk $exp, F_EVENT_ENABLED); fcell!(@res_bool $exp, got, $c.ev_enabled); }};
+        let got = Filter::<Root>::event_enabled(&$w, &e, &cx); fcell!(@chk $exp, F_EVENT_ENABLED); fcell!(@farg $exp, addr(&e), 0usize); fcell!(@res_bool $exp, got, $c.ev_enabled); }};
     (on_new_span, $w:expr, $c:expr, $exp:ident) => {{ let vs = META.fields().value_set(&[]); let a = span::Attributes::new(&META, &vs); let id = span::Id::from_u64(7);
-        Filter::<Root>::on_new_span(&$w, &a, &id, ctx()); fcell!(@chk $exp, F_ON_NEW_SPAN); }};
+        Filter::<Root>::on_new_span(&$w, &a, &id, ctx()); fcell!(@chk $exp, F_ON_NEW_SPAN); fcell!(@farg $exp, addr(&a), 7usize); }};
     (on_record, $w:expr, $c:expr, $exp:ident) => {{ let vs = META.fields().value_set(&[]); let r = span::Record::new(&vs); let id = span::Id::from_u64(7);
-        Filter::<Root>::on_record(&$w, &id, &r, ctx()); fcell!(@chk $exp, F_ON_RECORD); }};
-    (on_enter, $w:expr, $c:expr, $exp:ident) => {{ let id = span::Id::from_u64(7); Filter::<Root>::on_enter(&$w, &id, ctx()); fcell!(@chk $exp, F_ON_ENTER); }};
-    (on_exit, $w:expr, $c:expr, $exp:ident) => {{ let id = span::Id::from_u64(7); Filter::<Root>::on_exit(&$w, &id, ctx()); fcell!(@chk $exp, F_ON_EXIT); }};
-    (on_close, $w:expr, $c:expr, $exp:ident) => {{ Filter::<Root>::on_close(&$w, span::Id::from_u64(7), ctx()); fcell!(@chk $exp, F_ON_CLOSE); }};
+        Filter::<Root>::on_record(&$w, &id, &r, ctx()); fcell!(@chk $exp, F_ON_RECORD); fcell!(@farg $exp, addr(&id), addr(&r)); }};
+    (on_enter, $w:expr, $c:expr, $exp:ident) => {{ let id = span::Id::from_u64(7); Filter::<Root>::on_enter(&$w, &id, ctx()); fcell!(@chk $exp, F_ON_ENTER); fcell!(@farg $exp, addr(&id), 0usize); }};
+    (on_exit, $w:expr, $c:expr, $exp:ident) => {{ let id = span::Id::from_u64(7); Filter::<Root>::on_exit(&$w, &id, ctx()); fcell!(@chk $exp, F_ON_EXIT); fcell!(@farg $exp, addr(&id), 0usize); }};
+    (on_close, $w:expr, $c:expr, $exp:ident) => {{ Filter::<Root>::on_close(&$w, span::Id::from_u64(7), ctx()); fcell!(@chk $exp, F_ON_CLOSE); fcell!(@farg $exp, 7usize, 0usize); }};
     (@res_bool one, $got:expr, $v:expr) => { assert!($got == $v, "C09.result_unchanged"); };
     (@res_bool absent, $got:expr, $v:expr) => { assert!($got, "C09.absent_filter_accepts"); };
     (@res_interest one, $got:expr, $c:expr) => { assert!(icode(&$got) == $c.interest, "C09.result_unchanged"); };
